@@ -334,9 +334,121 @@ def tree_cases(ctx):
         tree_case(ctx, n, items, rng.choice([1, 4, 32]), rng.choice([0.0, 0.0, 0.15, 0.4]), base, f'xtree{t}', canonical=rng.random() < 0.1, xref=True)
 
 
+# ----------------------------------------------------------------------------- (c) labels longer than the remaining key: refused
+
+LIB_CELL = (2, G.bytes_to_bits(bytes([2]) + bytes(range(32))), ())       # a library cell: where a pre-repair parser would have stopped quietly
+
+
+def over_pattern(kind, length, m, rng):
+    """bit pattern of constructor `kind` announcing `length` > m bits under bound m (None if the `#<= m` field cannot hold it)"""
+    if kind == 's':
+        return '0' + '1' * length + '0' + G.rand_bits(rng, length)
+    if length >= (1 << m.bit_length()):
+        return None
+    field = format(length, 'b').zfill(m.bit_length())
+    if kind == 'l':
+        return '10' + field + G.rand_bits(rng, length)
+    return '11' + rng.choice('01') + field
+
+
+def overlong_case(ctx, n, kind, length, path, ybits, seed_bits, tag):
+    """A dictionary cell of key length n: `path` = the fork labels above the bad edge with the side it hangs on ([(label, 'l'|'r')],
+    [] = the bad edge is the root), every other child a well-formed leaf.  The bad edge announces `length` bits although only
+    m = n - sum(|label| + 1) remain.  Every parser entry point must RAISE (hashmap.tlb {n <= m}); the model must answer err."""
+    import random as _r
+    HashMap, parse_hashmap, parse_hashmap_aug, Builder, Cell = _lib()
+    rng = _r.Random(seed_bits)
+    m = n - sum(len(lab) + 1 for lab, _ in path)
+    inp = {'kind': 'overlong', 'n': n, 'ctor': kind, 'length': length, 'path': [list(p) for p in path], 'ybits': ybits, 'seed_bits': seed_bits, 'tag': tag}
+    pat = over_pattern(kind, length, m, rng) if m >= 0 and length > m else None
+    if pat is None:
+        ctx.count('overlong:not-expressible')
+        return
+    extra = lambda: G.rand_bits(rng, ybits)
+    nodes = [LIB_CELL]
+    # the bad edge: label, then (aug: its fork extra), two references to a library cell (a pre-repair parser ends there quietly)
+    nodes.append((-1, pat + extra() + '1', (0, 0)))
+    cur, rem = 1, m
+    for lab, side in reversed(path):
+        # sibling: a well-formed leaf at remaining length `rem`
+        ls = G.rand_bits(rng, rem)
+        lk = 's' if rem <= 100 else 'l'
+        nodes.append((-1, M.enc_label(ls, rem, lk) + extra() + '101', ()))
+        sib = len(nodes) - 1
+        rem = rem + 1 + len(lab)
+        fk = rng.choice('sl') if lab else rng.choice('slm')
+        kids = (cur, sib) if side == 'l' else (sib, cur)
+        nodes.append((-1, M.enc_label(lab, rem, fk) + extra(), kids))
+        cur = len(nodes) - 1
+    assert rem == n
+    root = cur
+    cells = G.lib_build(nodes, 'ctor')
+    if cells[root] is None:
+        ctx.count('overlong:invalid-cell')
+        return
+    rc = cells[root]
+    ctx.case(('overlong', n, kind, length, tuple(map(tuple, path)), ybits, seed_bits), nontrivial=True,
+             sample={'n': n, 'ctor': kind, 'length': length, 'remaining': m, 'depth': len(path), 'aug': ybits})
+    ctx.count(f'overlong:{kind}:depth{min(len(path), 3)}:' + ('aug' if ybits else 'plain'))
+    dag = G.dag_line(nodes)[8:]
+
+    def refused(name, f, mode, node=root, dag=dag):
+        got = call(f)
+        ctx.count('overlong-parser:' + name)
+        if not is_err(got):
+            shown = 'None' if got is None else (f'{len(got[0])} entries, {len(got[1])} extras' if isinstance(got, tuple) else f'{len(got)} entries')
+            ctx.fail(f'label-too-long:{name}', f'{name} returned although an edge label ({dict(s="hml_short", l="hml_long", m="hml_same")[kind]}) '
+                     f'announces {length} bits with {m} key bits remaining ({len(path)} fork(s) below the root): hashmap.tlb requires n <= m',
+                     inp, shown, 'an exception')
+            return
+        ctx.expect_model(f'hmparse {dag} {node} {n} {mode}', 'err', tag + ':' + name)
+
+    if ybits == 0:
+        cont = Builder().store_bit(1).store_ref(rc).end_cell()
+        dag2, cnode = dag + f'|-1,1,{root}', len(nodes)
+        refused('parse_hashmap', lambda: parse_hashmap(rc.begin_parse(), n), 'p')
+        refused('HashMap.parse', lambda: HashMap.parse(rc.begin_parse(), n), 'h')
+        refused('from_cell', lambda: HashMap.from_cell(rc, n).map, 'f')
+        refused('load_dict', lambda: cont.begin_parse().load_dict(n), 'ld', cnode, dag2)
+    else:
+        y = lambda sl: sl.load_uint(ybits)
+        x = lambda sl: slice_tok(sl)
+        te = G.rand_bits(rng, ybits)
+        cont = Builder().store_bit(1).store_ref(rc).store_bits(te).end_cell()
+        dag2, cnode = dag + f'|-1,1{te},{root}', len(nodes)
+        refused('parse_hashmap_aug', lambda: parse_hashmap_aug(rc.begin_parse(), n, x, y), f'aug:{ybits}')
+        refused('load_hashmap_aug', lambda: rc.begin_parse().load_hashmap_aug(n, x, y), f'aug:{ybits}')
+        refused('load_hashmap_aug_e', lambda: cont.begin_parse().load_hashmap_aug_e(n, x, y), f'auge:{ybits}', cnode, dag2)
+
+
+def overlong_cases(ctx):
+    rng = ctx.rng
+    t = 0
+    for n in (1, 2, 3, 5, 6, 8, 12, 16, 32, 64, 256):
+        paths = [[]]
+        if n >= 2:
+            paths += [[('', 'l')], [('', 'r')], [(G.rand_bits(rng, min(n - 1, 2)), rng.choice('lr'))]]
+        if n >= 4:
+            paths += [[('', 'r'), ('', 'l')], [(G.rand_bits(rng, 1), 'l'), (G.rand_bits(rng, rng.randrange(0, min(n - 3, 5))), 'r')]]
+        if n >= 12:
+            paths.append([(G.rand_bits(rng, rng.randrange(0, 3)), rng.choice('lr')) for _ in range(4)])
+        for path in paths:
+            m = n - sum(len(lab) + 1 for lab, _ in path)
+            top = (1 << m.bit_length()) - 1
+            for kind in 'slm':
+                lens = {m + 1, m + 2, m + rng.randrange(1, 12)} if kind == 's' else {m + 1, top, rng.randrange(m + 1, top + 1) if top > m else m + 1}
+                for length in sorted(lens):
+                    if kind == 's' and 2 + 2 * length > 900:
+                        continue
+                    for ybits in (0, rng.choice([1, 3, 8])):
+                        t += 1
+                        overlong_case(ctx, n, kind, length, path, ybits, rng.getrandbits(32), f'overlong{t}')
+
+
 def run(ctx):
     label_cases(ctx)
     tree_cases(ctx)
+    overlong_cases(ctx)
 
 
 def replay(ctx, payload):
@@ -345,6 +457,8 @@ def replay(ctx, payload):
         canon_case(ctx, inp['n'], [int(k) for k in inp['keys']], inp['vbits'], inp.get('tag', 'replay'))
     elif inp.get('kind') == 'tree':
         replay_tree(ctx, inp)
+    elif inp.get('kind') == 'overlong':
+        overlong_case(ctx, inp['n'], inp['ctor'], inp['length'], [tuple(p) for p in inp['path']], inp['ybits'], inp['seed_bits'], inp.get('tag', 'replay'))
 
 
 def replay_tree(ctx, inp):
